@@ -25,11 +25,13 @@ func (s *Server) periodicBackup(ctx context.Context) {
 			} else {
 				lastWriteGen = gen
 			}
-			select {
-			case <-time.After(time.Minute):
-			case <-ctx.Done():
-				return
-			}
+		}
+		// Wait before looking again whether or not a backup was due, so that an
+		// idle database is not polled in a busy loop and cancellation is noticed.
+		select {
+		case <-time.After(time.Minute):
+		case <-ctx.Done():
+			return
 		}
 	}
 }
